@@ -190,9 +190,10 @@ def solve_sat(
 
     def unassign_to(level):
         nonlocal prop_head
-        while len(trail_lim) > level:
-            trail_lim.pop()
-        target = trail_lim[-1] if trail_lim else 0
+        if len(trail_lim) <= level:
+            return
+        target = trail_lim[level]
+        del trail_lim[level:]
         while len(trail) > target:
             var = trail.pop()
             phase[var] = vals[var] == 1
@@ -200,7 +201,7 @@ def solve_sat(
             if not in_heap[var]:
                 heappush(var_heap, (-activity[var], var))
                 in_heap[var] = True
-        prop_head = len(trail)
+        prop_head = min(prop_head, len(trail))
 
     def find_pure_literals():
         pos_count = [0] * (n_vars + 1)
